@@ -14,7 +14,7 @@ from session import tla_val   # noqa: E402
 
 ASSUME = ['the value -> yabgp dict rendering of harness/wire_map.py (documented input/output forms of Update.construct / Update.parse)',
           'TLC/SANY, CommunityModules Json/IOUtils', 'bounded value pools of spec/WireUpdate.tla (boundary values per field); not a proof about the Python code']
-FAMILIES = {'C06': ['upd', 'updspell'], 'C08': ['upd', 'updap', 'openrt', 'notif', 'rr', 'ka', 'mp_ipv6', 'mp_lu4', 'mp_lu6', 'mp_vpn4', 'mp_vpn6', 'mp_evpn', 'mp_fs', 'enc'], 'C09': ['upd', 'updvar', 'updap', 'cor', 'mpdec'],
+FAMILIES = {'C06': ['upd', 'updspell'], 'C08': ['upd', 'updap', 'openrt', 'notif', 'rr', 'ka', 'mp_ipv6', 'mp_lu4', 'mp_lu6', 'mp_vpn4', 'mp_vpn6', 'mp_evpn', 'mp_fs', 'enc'], 'C09': ['upd', 'updvar', 'updap', 'cor', 'mpdec', 'fsdec'],
             'C14': ['open', 'openrt', 'notif', 'rr', 'ka'], 'C17': ['comm'],
             'C07': ['mp_ipv6', 'mp_lu4', 'mp_lu6', 'mp_vpn4', 'mp_vpn6', 'mp_evpn', 'mp_fs']}
 # thorough tier: the wide pools (every pair of attribute values, every mandatory x optional value, ...)
